@@ -9,6 +9,7 @@ import PGM.Driver.C03
 import PGM.Driver.C08
 import PGM.Driver.C11
 import PGM.Driver.C16
+import PGM.Driver.C18
 /-!
 Line-protocol driver: one JSON request per input line, one JSON response per output line.
 Run with `lake env lean --run Main.lean` or as the compiled `pgmdriver`.
@@ -40,6 +41,8 @@ def dispatch (req : Json) : Except String Json := do
   | "hps" => handleHPS req
   | "hps_cert" => handleHPSCert req
   | "lbp" => handleLBP req
+  | "mda_trace" => handleMdaTrace req
+  | "mda_attempt" => handleMdaAttempt req
   | _ => throw s!"unknown op {op}"
 
 def respond (line : String) : String :=
